@@ -82,13 +82,17 @@ class CFGridTopology(abc.ABC):
         --------
         https://cfconventions.org/Data/cf-conventions/cf-conventions-1.10/cf-conventions.html#latitude-coordinate
         """
+        # The bounds of a coordinate can carry the same attributes
+        bounds_names = utils.bounds_variable_names(self.dataset)
         try:
             return next(
                 name
                 for name, variable in self.dataset.variables.items()
-                if variable.attrs.get('units') in CF_LATITUDE_UNITS
-                or variable.attrs.get('standard_name') == 'latitude'
-                or variable.attrs.get('axis') == 'Y'
+                if name not in bounds_names and (
+                    variable.attrs.get('units') in CF_LATITUDE_UNITS
+                    or variable.attrs.get('standard_name') == 'latitude'
+                    or variable.attrs.get('axis') == 'Y'
+                )
             )
         except StopIteration:
             raise ValueError("Could not find latitude coordinate")
@@ -106,12 +110,16 @@ class CFGridTopology(abc.ABC):
         --------
         https://cfconventions.org/Data/cf-conventions/cf-conventions-1.10/cf-conventions.html#longitude-coordinate
         """
+        # The bounds of a coordinate can carry the same attributes
+        bounds_names = utils.bounds_variable_names(self.dataset)
         try:
             return next(
                 name for name, variable in self.dataset.variables.items()
-                if variable.attrs.get('units') in CF_LONGITUDE_UNITS
-                or variable.attrs.get('standard_name') == 'longitude'
-                or variable.attrs.get('axis') == 'X'
+                if name not in bounds_names and (
+                    variable.attrs.get('units') in CF_LONGITUDE_UNITS
+                    or variable.attrs.get('standard_name') == 'longitude'
+                    or variable.attrs.get('axis') == 'X'
+                )
             )
         except StopIteration:
             raise ValueError("Could not find longitude coordinate")
